@@ -2170,4 +2170,354 @@ example : ∃ v, [X.pinf, .fin 0][0]? = some v ∧ X.ops.beq v X.ops.negInf = fa
   subst e
   exact (himp (by decide) (by decide)).1
 
+/-! ### histories with an ABSTRACT top-k stage: reproducibility needs only that the stage is a function -/
+
+/-- does a call with top-k stage `tk` reach the generator? -/
+def consumesWith (o : Ops α) (tk : Int → List (Tok α) → List (Tok α)) (fix : Bool) (P : Params α)
+    (logits : List α) : Bool :=
+  match logits with
+  | [] => false
+  | _ =>
+    !o.beq P.temp o.zero &&
+    (if fix then
+       (match shiftMax o (tk P.topK (mkTokens logits)) with
+        | .ok _ => true
+        | .error _ => false)
+     else true)
+
+def sampleStepWith (o : Ops α) (tk : Int → List (Tok α) → List (Tok α)) (toF : Nat → α) (fix : Bool)
+    (P : Params α) (p : Pcg) (logits : List α) : Except Err Nat × Pcg :=
+  if consumesWith o tk fix P logits then
+    (SampleWith o (tk P.topK) fix P (toF (pcgFloat24 p).1) logits, (pcgFloat24 p).2)
+  else (SampleWith o (tk P.topK) fix P (toF 0) logits, p)
+
+/-- a history of calls on one sampler whose top-k stage is `tk` -/
+def sampleHistWith (o : Ops α) (tk : Int → List (Tok α) → List (Tok α)) (toF : Nat → α) (fix : Bool)
+    (P : Params α) : Pcg → List (List α) → List (Except Err Nat)
+  | _, [] => []
+  | p, l :: ls =>
+    (sampleStepWith o tk toF fix P p l).1 ::
+      sampleHistWith o tk toF fix P (sampleStepWith o tk toF fix P p l).2 ls
+
+/-- the model is the instance `tk = topK o` -/
+theorem sampleHistWith_topK (o : Ops α) (toF : Nat → α) (fix : Bool) (P : Params α) (p : Pcg)
+    (ls : List (List α)) :
+    sampleHistWith o (topK o) toF fix P p ls = sampleHist o toF fix P p ls := by
+  induction ls generalizing p with
+  | nil => rfl
+  | cons l ls ih =>
+    simp only [sampleHistWith, sampleHist]
+    have e : sampleStepWith o (topK o) toF fix P p l = sampleStep o toF fix P p l := by
+      unfold sampleStepWith sampleStep
+      have c : consumesWith o (topK o) fix P l = consumes o fix P l := by
+        cases l <;> rfl
+      rw [c]
+      rfl
+    rw [e, ih]
+
+def drawsWith (o : Ops α) (tk : Int → List (Tok α) → List (Tok α)) (fix : Bool) (P : Params α)
+    (ls : List (List α)) : Nat :=
+  (ls.filter (consumesWith o tk fix P)).length
+
+theorem sampleStepWith_state (o : Ops α) (tk : Int → List (Tok α) → List (Tok α)) (toF : Nat → α)
+    (fix : Bool) (P : Params α) (p : Pcg) (l : List α) :
+    (sampleStepWith o tk toF fix P p l).2 =
+      advance pcgFloat24 (if consumesWith o tk fix P l then 1 else 0) p := by
+  unfold sampleStepWith
+  split <;> simp [advance]
+
+/-- **reproducible under a fixed seed for ANY deterministic top-k stage** — pdqsort included.  `tk` is an
+    arbitrary FUNCTION of (k, tokens): whatever order it gives to tokens with equal logits, two
+    samplers with the same seed and parameters return the same sequence on the same sequence of logit
+    vectors, and the i-th result is the single call `SampleWith` with the `d_i`-th number of the
+    seed's stream (`d_i` = earlier drawing calls).  The only thing assumed of Go's `slices.SortFunc` /
+    `container/heap` is that it is deterministic (a function of its input) — recorded as an assumption
+    and checked on every sampled call by running the real `topK` twice (L2 `topk-not-deterministic`). -/
+theorem reproducible_with_any_sort (o : Ops α) (tk : Int → List (Tok α) → List (Tok α)) (toF : Nat → α)
+    (fix : Bool) (P : Params α) (seed : Int) (ls : List (List α)) :
+    (∀ seed', seed' = seed →
+      sampleHistWith o tk toF fix P (pcgOfSeed seed') ls = sampleHistWith o tk toF fix P (pcgOfSeed seed) ls) ∧
+    ∀ (i : Nat) l, ls[i]? = some l →
+      (sampleHistWith o tk toF fix P (pcgOfSeed seed) ls)[i]? =
+        some (sampleStepWith o tk toF fix P
+          (advance pcgFloat24 (drawsWith o tk fix P (ls.take i)) (pcgOfSeed seed)) l).1 := by
+  refine ⟨fun s' hs => by rw [hs], ?_⟩
+  generalize pcgOfSeed seed = p
+  intro i
+  induction ls generalizing p i with
+  | nil => intro l hl; simp at hl
+  | cons l0 ls ih =>
+    intro l hl
+    cases i with
+    | zero =>
+      simp only [List.getElem?_cons_zero, Option.some.injEq] at hl
+      subst hl
+      simp [sampleHistWith, drawsWith, advance]
+    | succ i =>
+      simp only [List.getElem?_cons_succ] at hl
+      simp only [sampleHistWith, List.getElem?_cons_succ, List.take_succ_cons]
+      rw [ih _ i l hl, sampleStepWith_state]
+      congr 3
+      simp only [drawsWith, List.filter_cons]
+      split
+      · rw [List.length_cons, Nat.add_comm, advance_add]
+      · simp [advance]
+
+/-- every result of such a history is a single `SampleWith` call, so `sampleWith_admissible` applies to
+    every position: admissibility AND reproducibility hold for every deterministic correct top-k stage -/
+theorem histWith_each_call (o : Ops α) (tk : Int → List (Tok α) → List (Tok α)) (toF : Nat → α)
+    (fix : Bool) (P : Params α) (p : Pcg) (ls : List (List α)) (i : Nat) (res : Except Err Nat)
+    (h : (sampleHistWith o tk toF fix P p ls)[i]? = some res) :
+    ∃ l r, ls[i]? = some l ∧ res = SampleWith o (tk P.topK) fix P r l := by
+  induction ls generalizing p i with
+  | nil => simp [sampleHistWith] at h
+  | cons l ls ih =>
+    cases i with
+    | zero =>
+      simp only [sampleHistWith, List.getElem?_cons_zero, Option.some.injEq] at h
+      refine ⟨l, ?_, rfl, ?_⟩
+      · exact if consumesWith o tk fix P l then toF (pcgFloat24 p).1 else toF 0
+      · rw [← h]; unfold sampleStepWith; split <;> simp [*]
+    | succ i =>
+      simp only [sampleHistWith, List.getElem?_cons_succ] at h ⊢
+      exact ih _ _ h
+
+/-! ### round 7: `runGood` derived from a guard on the input, named IEEE laws and finiteness of the masses -/
+
+/-- not NaN and not negative -/
+def nn (o : Ops α) (a : α) : Prop := o.isNaN a = false ∧ o.lt a o.zero = false
+/-- not NaN, not negative, below `+Inf` -/
+def nnf (o : Ops α) (a : α) : Prop := nn o a ∧ o.lt a o.posInf = true
+
+/-- the IEEE facts behind `softmax` and the sums, on non-NaN values -/
+structure SoftmaxLawsOn (o : Ops α) : Prop where
+  /-- `x − m` for a finite `m`: not NaN, and not positive when `x ≤ m` -/
+  sub_fin : ∀ a m, o.isNaN a = false → o.isNaN m = false → o.lt o.negInf m = true → o.lt m o.posInf = true →
+    o.isNaN (o.sub a m) = false ∧ (o.lt m a = false → o.lt o.zero (o.sub a m) = false)
+  /-- `exp` of a non-positive non-NaN number is in `[0, 1]` -/
+  exp_nonpos : ∀ x, o.isNaN x = false → o.lt o.zero x = false → nnf o (o.exp x)
+  /-- a sum of two finite non-negatives is not NaN and not negative -/
+  add_nn : ∀ a b, nn o a → nn o b → nn o (o.add a b)
+  /-- a finite non-negative divided by a finite positive number is not NaN and not negative -/
+  div_nn : ∀ e s, nnf o e → o.isNaN s = false → o.lt o.zero s = true → o.lt s o.posInf = true → nn o (o.div e s)
+  /-- a finite non-negative times a number of `[0, 1]` is not NaN (either order) -/
+  mul_good : ∀ a p, nnf o a → nn o p → o.lt o.one p = false →
+    o.isNaN (o.mul a p) = false ∧ o.isNaN (o.mul p a) = false
+
+theorem foldl_add_nn {o : Ops α} (hl : SoftmaxLawsOn o) : ∀ (es : List α) (s : α), nn o s →
+    (∀ e ∈ es, nn o e) → nn o (es.foldl o.add s) := by
+  intro es
+  induction es with
+  | nil => intro s hs _; exact hs
+  | cons e rest ih =>
+    intro s hs he
+    exact ih _ (hl.add_nn s e hs (he e List.mem_cons_self)) (fun x hx => he x (List.mem_cons_of_mem _ hx))
+
+theorem sumsGood_of_nn {o : Ops α} (hl : SoftmaxLawsOn o) : ∀ (L : List (Tok α)) (s : α), nn o s →
+    (∀ t ∈ L, nn o t.val) → sumsGood o s L = true := by
+  intro L
+  induction L with
+  | nil => intro _ _ _; rfl
+  | cons t rest ih =>
+    intro s hs hL
+    have h1 := hl.add_nn s t.val hs (hL t List.mem_cons_self)
+    simp only [sumsGood, Bool.and_eq_true, Bool.not_eq_true']
+    exact ⟨h1.1, ih _ h1 (fun x hx => hL x (List.mem_cons_of_mem _ hx))⟩
+
+theorem cumsum_nn {o : Ops α} (hl : SoftmaxLawsOn o) : ∀ (L : List (Tok α)) (s : α), nn o s →
+    (∀ t ∈ L, nn o t.val) → ∀ t ∈ cumsum o s L, nn o t.val := by
+  intro L
+  induction L with
+  | nil => intro _ _ _ t ht; simp [cumsum] at ht
+  | cons x rest ih =>
+    intro s hs hL t ht
+    have h1 := hl.add_nn s x.val hs (hL x List.mem_cons_self)
+    simp only [cumsum, List.mem_cons] at ht
+    rcases ht with rfl | ht
+    · exact h1
+    · exact ih _ h1 (fun y hy => hL y (List.mem_cons_of_mem _ hy)) t ht
+
+/-- the max scan of `softmax` over a descending NaN-free list whose head is above `-Inf` finds the head -/
+theorem maxScan_desc {o : Ops α} (h : OrdLawsOn o) (v : α) (rest : List α)
+    (hg : ∀ x ∈ v :: rest, o.isNaN x = false) (hd : isDesc o (v :: rest) = true)
+    (hv : o.lt o.negInf v = true) :
+    (v :: rest).foldl (fun m x => if o.lt m x then x else m) o.negInf = v := by
+  have hmax := isDesc_head_max h rest v hg hd
+  simp only [List.foldl_cons, hv, if_true]
+  have : ∀ (l : List α), (∀ x ∈ l, o.lt v x = false) → l.foldl (fun m x => if o.lt m x then x else m) v = v := by
+    intro l
+    induction l with
+    | nil => intro _; rfl
+    | cons x xs ih =>
+      intro hl
+      simp only [List.foldl_cons, hl x List.mem_cons_self, Bool.false_eq_true, if_false]
+      exact ih (fun y hy => hl y (List.mem_cons_of_mem _ hy))
+  exact this rest (fun x hx => hmax x (List.mem_cons_of_mem _ hx))
+
+/-- **`runGood` is a theorem**: for scaled values that are NaN-free, not positive, descending and start
+    above `-Inf` (what `shift_scale_contracts_of_laws` DERIVES from NaN-free logits and a finite
+    positive temperature), `top_p`, `min_p`, `r` in `[0, 1]` (`newParams_in_range`, `Rand.Float32`), and
+    the residual finiteness guard `massFinite`, no NaN is ever compared in the run. -/
+theorem runGood_of_laws {o : Ops α} (h : OrdLawsOn o) (hl : SoftmaxLawsOn o) (P : Params α) (r : α)
+    (L1 : List (Tok α)) (v0 : α) (vrest : List α)
+    (hsc : scaledOf o P L1 = v0 :: vrest)
+    (hS : ∀ v ∈ scaledOf o P L1, o.isNaN v = false)
+    (hSd : isDesc o (scaledOf o P L1) = true)
+    (hSh : o.lt o.negInf v0 = true) (hSf : o.lt v0 o.posInf = true)
+    (hp : o.isNaN P.topP = false)
+    (hmp : nn o P.minP ∧ o.lt o.one P.minP = false)
+    (hr : nn o r ∧ o.lt o.one r = false)
+    (hmf : massFinite o P L1 = true) :
+    runGood o P r L1 = true := by
+  have hzero : nn o o.zero := ⟨h.zero, h.irrefl _ h.zero⟩
+  -- the max scan finds the head
+  have hm : (scaledOf o P L1).foldl (fun m v => if o.lt m v then v else m) o.negInf = v0 := by
+    rw [hsc]; exact maxScan_desc h v0 vrest (by rw [← hsc]; exact hS) (by rw [← hsc]; exact hSd) hSh
+  have hv0 : o.isNaN v0 = false := hS v0 (by rw [hsc]; exact List.mem_cons_self)
+  have hmaxv : ∀ v ∈ scaledOf o P L1, o.lt v0 v = false := by
+    rw [hsc]; exact isDesc_head_max h vrest v0 (by rw [← hsc]; exact hS) (by rw [← hsc]; exact hSd)
+  -- the exponentials are in [0, 1]
+  have hes : ∀ e ∈ (scaledOf o P L1).map (fun v => o.exp (o.sub v v0)), nnf o e := by
+    intro e he
+    obtain ⟨v, hv, rfl⟩ := List.mem_map.1 he
+    obtain ⟨g1, g2⟩ := hl.sub_fin v v0 (hS v hv) hv0 hSh hSf
+    exact hl.exp_nonpos _ g1 (g2 (hmaxv v hv))
+  unfold massFinite at hmf
+  simp only [hm, Bool.and_eq_true, List.all_eq_true] at hmf
+  obtain ⟨⟨⟨hs0, hsf⟩, hpf⟩, hcf⟩ := hmf
+  have hsnn := foldl_add_nn hl _ o.zero hzero (fun e he => (hes e he).1)
+  -- the probabilities
+  have hpv : (probsOf o P L1).map (·.val) = softmaxVals o (scaledOf o P L1) := by
+    unfold probsOf softmax
+    rw [temperature_vals]
+    exact setVals_map_val _ _ (by simp [softmaxVals_length, scaleVals_length, scaledOf, temperature, setVals_length])
+  have hprobs : ∀ t ∈ probsOf o P L1, nn o t.val := by
+    intro t ht
+    have : t.val ∈ softmaxVals o (scaledOf o P L1) := by rw [← hpv]; exact List.mem_map_of_mem ht
+    unfold softmaxVals at this
+    simp only [hm] at this
+    obtain ⟨e, he, heq⟩ := List.mem_map.1 this
+    rw [← heq]
+    exact hl.div_nn e _ (hes e he) hsnn.1 hs0 hsf
+  have hprobsf : ∀ t ∈ probsOf o P L1, nnf o t.val := fun t ht => ⟨hprobs t ht, hpf t ht⟩
+  unfold runGood
+  simp only [Bool.and_eq_true, List.all_eq_true, Bool.not_eq_true']
+  refine ⟨⟨⟨⟨⟨?_, fun t ht => (hprobs t ht).1⟩, hp⟩, sumsGood_of_nn hl _ _ hzero hprobs⟩, ?_⟩, ?_⟩
+  · intro t ht
+    have : t.val ∈ scaledOf o P L1 := by rw [← temperature_vals]; exact List.mem_map_of_mem ht
+    exact hS _ this
+  · cases htp : topP o P.topP (probsOf o P L1) with
+    | nil => rfl
+    | cons t0 rest =>
+      have hmem : t0 ∈ probsOf o P L1 := (topP_prefix o P.topP _).subset (by rw [htp]; exact List.mem_cons_self)
+      simpa using (hl.mul_good t0.val P.minP (hprobsf t0 hmem) hmp.1 hmp.2).1
+  · cases hmn : minP o P.minP (topP o P.topP (probsOf o P L1)) with
+    | error e => rfl
+    | ok f =>
+      rw [hmn] at hcf
+      simp only [List.all_eq_true] at hcf
+      have hfsub : ∀ t ∈ f, nn o t.val := fun t ht =>
+        hprobs t ((topP_prefix o P.topP _).subset ((minP_prefix o P.minP _ f hmn).subset ht))
+      have hC := cumsum_nn hl f o.zero hzero hfsub
+      simp only [Bool.and_eq_true, List.all_eq_true, Bool.not_eq_true']
+      refine ⟨fun t ht => (hC t ht).1, ?_⟩
+      cases hl' : (cumsum o o.zero f).getLast? with
+      | none => rfl
+      | some last =>
+        have hlm : last ∈ cumsum o o.zero f := List.mem_of_getLast? hl'
+        simpa using (hl.mul_good last.val r ⟨hC last hlm, hcf last hlm⟩ hr.1 hr.2).2
+
+
+/-- **`runGood` from a guard on the INPUT, named IEEE laws and finiteness of the masses**: NaN-free
+    logits, a finite positive `max(temp, 1e-7)`, `top_p` not NaN, `min_p` and `r` in `[0, 1]` — plus the
+    residual `massFinite` — imply that no NaN is ever compared in the run on the shifted list. -/
+theorem runGood_from_input {o : Ops α} (h : OrdLawsOn o) (hb : BeqLawOn o) (hs : ShiftLawsOn o)
+    (hsc : ScaleLawsOn o) (hl : SoftmaxLawsOn o) (hrefl : ∀ a, o.isNaN a = false → o.beq a a = true)
+    (P : Params α) (r : α) (logits : List α) (hne : logits ≠ []) (hn : noNaN o logits = true)
+    (hpos : posFinite o (fmax o P.temp o.tempFloor))
+    (hp : o.isNaN P.topP = false) (hmp : nn o P.minP ∧ o.lt o.one P.minP = false)
+    (hr : nn o r ∧ o.lt o.one r = false)
+    (L1 : List (Tok α)) (hsm : shiftMax o (topK o P.topK (mkTokens logits)) = .ok L1)
+    (hmf : massFinite o P L1 = true) :
+    runGood o P r L1 = true := by
+  obtain ⟨hgood, _, c1, c2⟩ := shift_scale_contracts_of_laws h hb hs hsc hrefl P logits hne hn hpos L1 hsm
+  unfold guardOK at c1
+  simp only [Bool.and_eq_true, List.all_eq_true, Bool.not_eq_true'] at c1
+  cases hsv : scaledOf o P L1 with
+  | nil => rw [hsv] at c1; simp at c1
+  | cons v0 vrest =>
+    have hall := c1.1
+    have hhead : o.lt o.negInf v0 = true := by
+      have := c1.2; rw [hsv] at this; simpa using this
+    have hS : ∀ v ∈ scaledOf o P L1, o.isNaN v = false := fun v hv => (hall v hv).1
+    have hd : isDesc o (scaledOf o P L1) = true := by
+      unfold scaleOK at c2
+      simp only [Bool.and_eq_true] at c2
+      exact c2.1.2
+    exact runGood_of_laws h hl P r L1 v0 vrest hsv hS hd hhead
+      ((hall v0 (by rw [hsv]; exact List.mem_cons_self)).2) hp hmp hr hmf
+
+theorem xSoftmaxLawsOn : SoftmaxLawsOn X.ops where
+  sub_fin := by
+    intro a m
+    cases a <;> cases m <;> simp [X.ops, X.lt, X.add, X.neg] <;> omega
+  exp_nonpos := by
+    intro x
+    cases x <;> simp [nnf, nn, X.ops, X.lt, X.exp]
+    rename_i a
+    intro ha
+    split <;> simp
+  add_nn := by
+    intro a b
+    cases a <;> cases b <;> simp [nn, X.ops, X.lt, X.add] <;> omega
+  div_nn := by
+    intro e s
+    cases e <;> cases s <;> simp [nnf, nn, X.ops, X.lt, X.div]
+    rename_i e s
+    intro he hs
+    exact Int.ediv_nonneg he (by omega)
+  mul_good := by
+    intro a p
+    cases a <;> cases p <;> simp [nnf, nn, X.ops, X.lt, X.mul]
+
+
+/-- **C18 for one weighted call of /repo's code from a guard on the INPUT**: relativised laws + named
+    IEEE laws (all instantiated on the carrier with NaN), NaN-free logits, finite positive
+    `max(temp, 1e-7)`, `top_p` not NaN, `min_p`, `r` ∈ [0, 1].  A returned `id` is in range and fewer than
+    `k` logits are strictly larger; and — the only per-run facts left being that `softmax` kept its
+    contract and that the masses are finite — its logit is not `-Inf` and it is the id of a member of
+    `minP (topP (softmax (temperature (shift (topK tokens)))))`.  `runGood` is no longer a hypothesis. -/
+theorem sample_admissible_from_input {o : Ops α} (h : OrdLawsOn o) (ha : ArithLawsOn o) (hb : BeqLawOn o)
+    (hs : ShiftLawsOn o) (hsc : ScaleLawsOn o) (hl : SoftmaxLawsOn o)
+    (hrefl : ∀ a, o.isNaN a = false → o.beq a a = true)
+    (P : Params α) (r : α) (logits : List α) (id : Nat) (ht : o.beq P.temp o.zero = false)
+    (hpos : posFinite o (fmax o P.temp o.tempFloor)) (hn : noNaN o logits = true)
+    (hp : o.isNaN P.topP = false) (hmp : nn o P.minP ∧ o.lt o.one P.minP = false)
+    (hr : nn o r ∧ o.lt o.one r = false)
+    (hS : Sample o true P r logits = .ok id) :
+    id < logits.length ∧
+    (∃ v, logits[id]? = some v ∧
+      ((mkTokens logits).filter (fun x => o.lt v x.val)).length <
+        (if P.topK ≥ (logits.length : Int) ∨ P.topK ≤ 0 then logits.length else P.topK.toNat)) ∧
+    ∃ L1, shiftMax o (topK o P.topK (mkTokens logits)) = .ok L1 ∧
+    (massFinite o P L1 = true →
+     softmaxOK o (scaledOf o P L1) (softmaxVals o (scaledOf o P L1)) = true →
+     (∃ v, logits[id]? = some v ∧ o.beq v o.negInf = false) ∧
+     ∃ f, minP o P.minP (topP o P.topP (probsOf o P L1)) = .ok f ∧ f <+: probsOf o P L1 ∧
+       ∃ x ∈ f, x.id = id) := by
+  have hne : logits ≠ [] := by
+    intro e; rw [e] at hS; cases hS
+  obtain ⟨h1, h2, L1, hsm, himp⟩ := sample_admissible_lawful h ha hb hs hsc hrefl P r logits id ht hpos hn hS
+  refine ⟨h1, h2, L1, hsm, fun hmf hsoft => ?_⟩
+  exact himp (runGood_from_input h hb hs hsc hl hrefl P r logits hne hn hpos hp hmp hr L1 hsm hmf) hsoft
+
+/-- instantiation on the carrier with NaN: the residual guard on the former F18 input (heap branch) -/
+example : massFinite X.ops ⟨.fin 1, 1, .fin 1, .fin 0, false⟩ [⟨0, .fin 0⟩] = true ∧
+    runGood X.ops ⟨.fin 1, 1, .fin 1, .fin 0, false⟩ (.fin 0) [⟨0, .fin 0⟩] = true := by
+  refine ⟨by decide, ?_⟩
+  exact runGood_from_input xLawsOn xBeqLawOn xShiftLawsOn xScaleLawsOn xSoftmaxLawsOn xBeqRefl
+    ⟨.fin 1, 1, .fin 1, .fin 0, false⟩ (.fin 0) [X.pinf, .fin 0] (by simp) (by decide)
+    ⟨by decide, by decide, by decide⟩ (by decide) ⟨⟨by decide, by decide⟩, by decide⟩
+    ⟨⟨by decide, by decide⟩, by decide⟩ [⟨0, .fin 0⟩] (by rfl) (by decide)
+
 end OllamaVerif.C18
